@@ -190,6 +190,9 @@ class CallMixin:
         return self.call_qual(st, qual, [recv] + pos, kw, node)
 
     def call_qual(self, st, qual, pos, kw, node=None):
+        if qual in self.stubs.quals:
+            self.used_stubs.add(qual)
+            return self.stubs.quals[qual](self, st, pos, kw)
         con = self.contracts.get(qual)
         if con is not None and not (self.cur is not None and con is self.cur and st.depth == 0 and False):
             return self.apply_contract(st, con, pos, kw)
